@@ -98,6 +98,21 @@ def run_impl(op):
     raise ValueError(op)
 
 
+def run_impl_list(op):
+    """same call with the nibble sequence passed as a list instead of a tuple"""
+    from trie.utils import nibbles as NB, nodes as ND
+    k = op[0]
+    if k == "CEncode":
+        return guard(lambda: bytes(NB.encode_nibbles(list(op[1]))))
+    if k == "CHP":
+        return guard(lambda: bytes(NB.encode_nibbles(list(op[1]) + ([16] if op[2] else []))))
+    if k == "CN2B":
+        return guard(lambda: bytes(NB.nibbles_to_bytes(list(op[1]))))
+    if k == "CLeafKey":
+        return guard(lambda: bytes(ND.compute_leaf_key(list(op[1]))))
+    return guard(lambda: bytes(ND.compute_extension_key(list(op[1]))))
+
+
 def unfreeze(n):
     return bytes(n) if isinstance(n, (bytes, bytearray)) else [unfreeze(x) for x in n]
 
@@ -274,6 +289,12 @@ def check(tier, seed):
     terms = []
     for op in ops:
         out = run_impl(op)
+        if op[0] in ("CEncode", "CHP", "CN2B", "CLeafKey", "CExtKey"):
+            # the functions take any nibble sequence: a list must behave like a tuple
+            alt = run_impl_list(op)
+            if alt != out:
+                R.spec_violations.append((f"{op[0]} behaves differently for a list than for a tuple of the same nibbles",
+                                          {"op": op, "impl": out, "impl_list": alt}))
         R.evaluations += 1
         R.count(op[0] + ("_err" if isinstance(out, Exc) else ""))
         bad = oracle(op, out)
